@@ -156,7 +156,6 @@ func c05Text(c *fw.Case, t string, proto bool) {
 		{"smpp/3", datacoding.Latin1(t).Encode, func(s string) (string, error) { return protocol.DecodeSMPPCContent(ctx, s, 3) }},
 		{"smpp/8", datacoding.UCS2(t).Encode, func(s string) (string, error) { return protocol.DecodeSMPPCContent(ctx, s, 8) }},
 	}
-	c05PackedUnderZero(c, t)
 	for _, x := range pcs {
 		enc, err := x.enc()
 		if err != nil {
@@ -177,37 +176,6 @@ func c05Text(c *fw.Case, t string, proto bool) {
 			c.Cover("protocol/" + x.name + "/inverts")
 		}
 	}
-}
-
-// c05PackedUnderZero: SMPP data_coding 0 is also what the packed GSM-7 encoder reports (ToUint8() == 0), and
-// DecodeSMPPCContent(.., 0) tries the unpacked reading first. Packed octets that are valid unpacked GSM-7 as well are
-// inherently ambiguous under that number; for all others the unpacked reading must be refused and the packed reading
-// must give the text back.
-func c05PackedUnderZero(c *fw.Case, t string) {
-	tab := ref.GSM7()
-	septets, ok := tab.Encode(t)
-	if !ok || len(septets) == 0 || ref.EndAmbiguous(septets) {
-		return
-	}
-	enc, err := datacoding.GSM7Packed(t).Encode()
-	if err != nil {
-		return
-	}
-	if _, readable := tab.Decode(enc); readable {
-		c.Cover("protocol/smpp/0-packed/ambiguous-with-unpacked")
-		return
-	}
-	c.Evals(1)
-	var got string
-	var derr error
-	if !try1(c, "DecodeContent/smpp/0-packed", enc, func() { got, derr = protocol.DecodeSMPPCContent(context.Background(), string(enc), 0) }) {
-		return
-	}
-	if derr != nil || got != t {
-		c.Failf("protocol-decode/smpp/0-packed", "content decoder for data_coding 0 does not invert the packed GSM-7 encoder although the octets are not valid unpacked GSM-7: %q -> %s -> (%q, %v)", t, hx(enc), got, derr)
-		return
-	}
-	c.Cover("protocol/smpp/0-packed/inverts")
 }
 
 func isUnsupportedErr(err error) bool {
@@ -331,30 +299,6 @@ func init() {
 						}
 					}
 					c.Cover(fmt.Sprintf("packedframe/U+%04X", ch))
-				},
-			},
-			{
-				Name: "packedshort", Exhaustive: "every text of one, two and (second character fixed per case) three GSM-7 characters through the packed encoder and the data_coding 0 decoder",
-				N: func(fw.Tier) uint64 { return 137 },
-				Run: func(c *fw.Case) {
-					tab := ref.GSM7()
-					var chars []rune
-					for b := 0; b < 128; b++ {
-						if tab.Basic[b] >= 0 {
-							chars = append(chars, tab.Basic[b])
-						}
-					}
-					for _, e := range []byte{0x0a, 0x14, 0x28, 0x29, 0x2f, 0x3c, 0x3d, 0x3e, 0x40, 0x65} {
-						chars = append(chars, tab.Ext[e])
-					}
-					a := chars[c.Idx]
-					c05PackedUnderZero(c, string(a))
-					for _, b := range chars {
-						c05PackedUnderZero(c, string([]rune{a, b}))
-						c05PackedUnderZero(c, string([]rune{a, b, chars[(c.Idx*7+3)%uint64(len(chars))]}))
-						c05PackedUnderZero(c, string([]rune{b, a, '0', ' '}))
-					}
-					c.Cover(fmt.Sprintf("packedshort/U+%04X", a))
 				},
 			},
 			{
